@@ -45,6 +45,10 @@ const (
 	KAny
 	KCellRef
 	KOpaque
+	KAddr  // tlb.MsgAddress (hand-written codec, modelled as TAddr)
+	KEnum  // string-valued Go type with a hand-written tag codec (modelled as a TSum of empty structs)
+	KVoid  // constructor of a union whose payload has no model: never generated, never claimed (listed)
+	KDictE // tlb.HashmapE[K,V]: Maybe ^(Hashmap n V); the dictionary body is property C05 (opaque cell here)
 )
 
 type Alt struct {
@@ -66,6 +70,9 @@ type Desc struct {
 	Ptr    bool         // the Go type is a pointer to the described type
 	Fields []int        // struct: Go field indices of Sub
 	Grams  bool         // KVarUInt backed by uint64 (tlb.Grams)
+	DK, DV *Desc        // KDictE: descriptors of the key and value types (used to generate dictionaries)
+	InRef  bool         // KCellRef held in a tlb.Ref[boc.Cell] (field Value)
+	GoW    int          // KInt: width of the Go integer holding the value when narrower than W (domain)
 }
 
 var (
@@ -140,6 +147,9 @@ func (c *ctx) desc(t reflect.Type, tag string) *Desc {
 			return opaque(t, "maybe^ on a non-pointer field")
 		}
 		in := c.desc(t.Elem(), "")
+		if in.K == KOpaque {
+			return in
+		}
 		return &Desc{K: KMaybeRef, Sub: []*Desc{in}, T: t, Ptr: true}
 	case strings.HasPrefix(tag, "maybe"):
 		if t.Kind() != reflect.Pointer {
@@ -147,12 +157,18 @@ func (c *ctx) desc(t reflect.Type, tag string) *Desc {
 		}
 		rest := strings.TrimPrefix(tag, "maybe")
 		in := c.desc(t.Elem(), rest)
+		if in.K == KOpaque {
+			return in
+		}
 		return &Desc{K: KMaybe, Sub: []*Desc{in}, T: t, Ptr: true}
 	case strings.HasPrefix(tag, "^"):
 		if t == bocCellT {
 			return &Desc{K: KCellRef, T: t}
 		}
 		in := c.desc(t, "")
+		if in.K == KOpaque {
+			return in
+		}
 		return &Desc{K: KRef, Sub: []*Desc{in}, T: t}
 	}
 	if t.Kind() == reflect.Pointer {
@@ -173,20 +189,32 @@ func (c *ctx) desc(t reflect.Type, tag string) *Desc {
 
 	if t.PkgPath() == tlbPkg {
 		base := genericBase(t)
+		wrap := func(k Kind, subs ...*Desc) *Desc {
+			for _, x := range subs {
+				if x.K == KOpaque {
+					return opaque(t, base+": "+x.Why)
+				}
+			}
+			return &Desc{K: k, Sub: subs, T: t}
+		}
 		switch base {
 		case "Maybe":
 			f, _ := t.FieldByName("Value")
-			return &Desc{K: KMaybe, Sub: []*Desc{c.desc(f.Type, "")}, T: t}
+			return wrap(KMaybe, c.desc(f.Type, ""))
 		case "Either":
 			l, _ := t.FieldByName("Left")
 			r, _ := t.FieldByName("Right")
-			return &Desc{K: KEither, Sub: []*Desc{c.desc(l.Type, ""), c.desc(r.Type, "")}, T: t}
+			return wrap(KEither, c.desc(l.Type, ""), c.desc(r.Type, ""))
 		case "EitherRef":
 			f, _ := t.FieldByName("Value")
-			return &Desc{K: KEitherRef, Sub: []*Desc{c.desc(f.Type, "")}, T: t}
+			return wrap(KEitherRef, c.desc(f.Type, ""))
 		case "Ref":
 			f, _ := t.FieldByName("Value")
-			return &Desc{K: KRef, Sub: []*Desc{c.desc(f.Type, "")}, T: t}
+			if f.Type == bocCellT {
+				// Ref[boc.Cell]: the cell itself becomes the reference
+				return &Desc{K: KCellRef, T: t, InRef: true}
+			}
+			return wrap(KRef, c.desc(f.Type, ""))
 		case "Unary":
 			return &Desc{K: KUnary, T: t}
 		case "Any":
@@ -212,6 +240,9 @@ func (c *ctx) desc(t reflect.Type, tag string) *Desc {
 			n, _ := strconv.Atoi(m[1])
 			return &Desc{K: KVarUInt, W: n, T: t}
 		}
+	}
+	if d := c.custom(t); d != nil {
+		return d
 	}
 	cm, cu := hasCustomMarshal(t), hasCustomUnmarshal(t)
 	if cm || cu {
@@ -253,6 +284,7 @@ func (c *ctx) desc(t reflect.Type, tag string) *Desc {
 		}
 		if _, ok := t.FieldByName("SumType"); ok {
 			d := &Desc{K: KSum, T: t}
+			live := 0
 			for i := 0; i < t.NumField(); i++ {
 				f := t.Field(i)
 				if f.Type == sumTypeT || f.Type.Name() == "SumType" {
@@ -267,9 +299,14 @@ func (c *ctx) desc(t reflect.Type, tag string) *Desc {
 				}
 				in := c.desc(f.Type, "")
 				if in.K == KOpaque {
-					return opaque(t, "constructor "+f.Name+": "+in.Why)
+					in = &Desc{K: KVoid, Why: "constructor " + f.Name + ": " + in.Why, T: f.Type}
+				} else {
+					live++
 				}
 				d.Alts = append(d.Alts, Alt{Name: f.Name, Len: l, Val: v, D: in, Idx: i})
+			}
+			if live == 0 {
+				return opaque(t, "no constructor has a model")
 			}
 			return d
 		}
@@ -340,13 +377,84 @@ func (d *Desc) Sx() sx.V {
 		return a("any")
 	case KCellRef:
 		return a("cellref")
+	case KAddr:
+		return a("addr")
+	case KVoid:
+		return a("sum")
+	case KEnum:
+		var as []sx.V
+		for _, al := range d.Alts {
+			as = append(as, sx.L(sx.Nat(al.Len), sx.N(al.Val), a("struct")))
+		}
+		return a("sum", as...)
+	case KDictE:
+		return a("mayberef", a("any"))
 	}
 	return a("opaque")
+}
+
+// RegNames maps registered Go types to Coq identifiers; Coq() prints a nested
+// struct / sum descriptor of a registered type as that identifier.
+var RegNames = map[reflect.Type]string{}
+
+// Deps lists the registered types a descriptor refers to by identifier.
+func (d *Desc) Deps(acc map[reflect.Type]bool) {
+	for _, s := range d.Sub {
+		if n := s.regName(); n != "" {
+			acc[s.baseT()] = true
+			continue
+		}
+		s.Deps(acc)
+	}
+	for _, a := range d.Alts {
+		if a.D == nil {
+			continue
+		}
+		if n := a.D.regName(); n != "" {
+			acc[a.D.baseT()] = true
+			continue
+		}
+		a.D.Deps(acc)
+	}
+}
+
+func (d *Desc) baseT() reflect.Type {
+	if d.Ptr && d.T.Kind() == reflect.Pointer {
+		return d.T.Elem()
+	}
+	return d.T
+}
+
+func (d *Desc) regName() string {
+	if d.K != KStruct && d.K != KSum {
+		return ""
+	}
+	return RegNames[d.baseT()]
+}
+
+func (d *Desc) coqSub() string {
+	if n := d.regName(); n != "" {
+		return n
+	}
+	return d.Coq()
 }
 
 // Coq prints the descriptor as a Gallina term of type ty.
 func (d *Desc) Coq() string {
 	switch d.K {
+	case KAddr:
+		return "TAddr"
+	case KVoid:
+		return "TSum []"
+	case KEnum:
+		var as []string
+		for _, al := range d.Alts {
+			as = append(as, fmt.Sprintf("(%d%%nat, %d%%N, TStruct [])", al.Len, al.Val))
+		}
+		return "TSum [" + strings.Join(as, "; ") + "]"
+	case KDictE:
+		return "TMaybeRef TAny"
+
 	case KUint:
 		return fmt.Sprintf("TUint %d", d.W)
 	case KInt:
@@ -366,25 +474,25 @@ func (d *Desc) Coq() string {
 	case KMagic:
 		return fmt.Sprintf("TMagic %d %d%%N", d.W, d.Val)
 	case KMaybe:
-		return "TMaybe (" + d.Sub[0].Coq() + ")"
+		return "TMaybe (" + d.Sub[0].coqSub() + ")"
 	case KEither:
-		return "TEither (" + d.Sub[0].Coq() + ") (" + d.Sub[1].Coq() + ")"
+		return "TEither (" + d.Sub[0].coqSub() + ") (" + d.Sub[1].coqSub() + ")"
 	case KEitherRef:
-		return "TEitherRef (" + d.Sub[0].Coq() + ")"
+		return "TEitherRef (" + d.Sub[0].coqSub() + ")"
 	case KRef:
-		return "TRef (" + d.Sub[0].Coq() + ")"
+		return "TRef (" + d.Sub[0].coqSub() + ")"
 	case KMaybeRef:
-		return "TMaybeRef (" + d.Sub[0].Coq() + ")"
+		return "TMaybeRef (" + d.Sub[0].coqSub() + ")"
 	case KStruct:
 		var fs []string
 		for _, s := range d.Sub {
-			fs = append(fs, s.Coq())
+			fs = append(fs, s.coqSub())
 		}
 		return "TStruct [" + strings.Join(fs, "; ") + "]"
 	case KSum:
 		var as []string
 		for _, al := range d.Alts {
-			as = append(as, fmt.Sprintf("(%d%%nat, %d%%N, %s)", al.Len, al.Val, al.D.Coq()))
+			as = append(as, fmt.Sprintf("(%d%%nat, %d%%N, %s)", al.Len, al.Val, al.D.coqSub()))
 		}
 		return "TSum [" + strings.Join(as, "; ") + "]"
 	case KAny:
@@ -392,7 +500,7 @@ func (d *Desc) Coq() string {
 	case KCellRef:
 		return "TCellRef"
 	}
-	return "TAny (* opaque *)"
+	return "TOPAQUE_MUST_NOT_APPEAR"
 }
 
 // Size is the number of descriptor nodes (fuel must exceed the depth).
@@ -528,9 +636,21 @@ func (d *Desc) Rand(r *prng.R, dst reflect.Value, depth int) sx.V {
 		dst.SetUint(v.Uint64())
 		return tag("n", sx.BigN(v))
 	case KInt:
-		v := randSigned(r, d.W)
+		w := d.W
+		if d.GoW > 0 && d.GoW < w {
+			w = d.GoW
+		}
+		v := randSigned(r, w)
 		dst.SetInt(v.Int64())
 		return tag("z", sx.BigZ(v))
+	case KAddr:
+		return randAddr(r, dst)
+	case KEnum:
+		k := r.Intn(len(d.Alts))
+		dst.SetString(d.Alts[k].Name)
+		return tag("sum", sx.Nat(k), tag("struct"))
+	case KDictE:
+		return d.randDict(r, dst, depth)
 	case KBigUint:
 		v := randUnsigned(r, d.W)
 		dst.Set(reflect.ValueOf(*v).Convert(d.T))
@@ -624,6 +744,9 @@ func (d *Desc) Rand(r *prng.R, dst reflect.Value, depth int) sx.V {
 		return tag("struct", vs...)
 	case KSum:
 		k := r.Intn(len(d.Alts))
+		for d.Alts[k].D.K == KVoid {
+			k = r.Intn(len(d.Alts))
+		}
 		al := d.Alts[k]
 		dst.FieldByName("SumType").SetString(al.Name)
 		return tag("sum", sx.Nat(k), al.D.Rand(r, dst.Field(al.Idx), depth+1))
@@ -641,7 +764,11 @@ func (d *Desc) Rand(r *prng.R, dst reflect.Value, depth int) sx.V {
 		return tag("any", cs.List[0], cs.List[1])
 	case KCellRef:
 		c := randCell(r, 1)
-		dst.Set(reflect.ValueOf(*c))
+		if d.InRef {
+			dst.FieldByName("Value").Set(reflect.ValueOf(*c))
+		} else {
+			dst.Set(reflect.ValueOf(*c))
+		}
 		return tag("cell", CellSx(c))
 	}
 	return sx.A("opaque")
@@ -659,6 +786,17 @@ func (d *Desc) Render(v reflect.Value) sx.V {
 		return cp.Render(v.Elem())
 	}
 	switch d.K {
+	case KAddr:
+		return renderAddr(v)
+	case KEnum:
+		for k, al := range d.Alts {
+			if al.Name == v.String() {
+				return tag("sum", sx.Nat(k), tag("struct"))
+			}
+		}
+		return sx.A("bad-enum")
+	case KDictE:
+		return dictSx(v)
 	case KUint:
 		return tag("n", sx.N(v.Uint()))
 	case KInt:
@@ -730,6 +868,9 @@ func (d *Desc) Render(v reflect.Value) sx.V {
 		cs := CellSx(&c)
 		return tag("any", cs.List[0], cs.List[1])
 	case KCellRef:
+		if d.InRef {
+			v = v.FieldByName("Value")
+		}
 		c := v.Interface().(boc.Cell)
 		c.ResetCounters()
 		return tag("cell", CellSx(&c))
